@@ -357,6 +357,47 @@ func checkC28(c c28Case) (o vstat.Outcome) {
 			}
 		}
 	}
+	// reach: BFS from the origin through subscribed nodes (only the origin and subscribed nodes forward)
+	reach := func(origin, ch int) map[int]int {
+		dist := map[int]int{origin: 0}
+		queue := []int{origin}
+		for len(queue) > 0 {
+			u := queue[0]
+			queue = queue[1:]
+			if u != origin && !subscribed(u, ch) {
+				continue
+			}
+			for v := range adj[u] {
+				if _, ok := dist[v]; !ok {
+					dist[v] = dist[u] + 1
+					queue = append(queue, v)
+				}
+			}
+		}
+		return dist
+	}
+	// delivery is an eventual clause: first wait (bounded) until every expected hand-over has happened, then for
+	// the traffic to die down, so that what is judged afterwards is over-delivery and wire behaviour
+	waitFor(10*time.Second, func() bool {
+		for _, p := range pubs {
+			dist := reach(p.origin, p.ch)
+			for i, nd := range nodes {
+				if _, ok := dist[i]; !ok || !subscribed(i, p.ch) {
+					continue
+				}
+				cnt := 0
+				for _, d := range nd.deliveries() {
+					if d.data == p.data {
+						cnt++
+					}
+				}
+				if cnt < copies[p.data] {
+					return false
+				}
+			}
+		}
+		return true
+	})
 	quiesce(func() int {
 		n := tp.count()
 		for _, nd := range nodes {
